@@ -286,9 +286,11 @@ def dr7value(chk):
     D7 = DBG + 'Dr7Value'
     flags_all = sum(v for k, v in AC.ARCH.items() if k.startswith('DR7.'))
     valid = 0xffff0000 | flags_all
-    o = run1(chk, D7 + '::valid_bits', [])
-    got = eval_value(o[0].val, {}) if len(o) == 1 else None
-    chk.ob('codec', 'Dr7Value::valid_bits', got == valid, 'returns %r, expected %#x (R/W+LEN fields | architectural DR7 flags)' % (got, valid))
+    if (D7 + '::valid_bits') in I.fn:
+        # a private helper today; what it must achieve is decided through from_bits / from_bits_truncate below
+        o = run1(chk, D7 + '::valid_bits', [])
+        got = eval_value(o[0].val, {}) if len(o) == 1 else None
+        chk.ob('codec', 'Dr7Value::valid_bits', got == valid, 'returns %r, expected %#x (R/W+LEN fields | architectural DR7 flags)' % (got, valid))
     vbits = [lit('v', i) if (valid >> i) & 1 else 0 for i in range(64)]
     # from_bits: Some(bits) exactly when no invalid bit is set
     o = run1(chk, D7 + '::from_bits', [BV(64, vbits)])
